@@ -42,3 +42,31 @@ package vm_context
 //@   ensures[never-negative] old(ctx.Account.balance[deref(ts)]) >= old(val(amount))
 //@   ensures[debit] ctx.Account.balance == store(old(ctx.Account.balance), deref(ts), old(ctx.Account.balance[deref(ts)]) - old(val(amount)))
 //@   modifies ctx.Account.balance
+
+// ---- C17: the three spork flags are read from the ledger as of the ACKNOWLEDGED momentum (ctx.momentumStore), never the
+// node's frontier -----------------------------------------------------------------------------------------------------------
+//@ func accountVmContext.IsAcceleratorSporkEnforced(ctx)
+//@   requires ctx != nil
+//@   ensures[acknowledged-momentum] result == ctx.momentumStore.sporkActive[types.AcceleratorSpork.SporkId]
+//@   modifies nothing
+//@ func accountVmContext.IsHtlcSporkEnforced(ctx)
+//@   requires ctx != nil
+//@   ensures[acknowledged-momentum] result == ctx.momentumStore.sporkActive[types.HtlcSpork.SporkId]
+//@   modifies nothing
+//@ func accountVmContext.IsBridgeAndLiquiditySporkEnforced(ctx)
+//@   requires ctx != nil
+//@   ensures[acknowledged-momentum] result == ctx.momentumStore.sporkActive[types.BridgeAndLiquiditySpork.SporkId]
+//@   modifies nothing
+
+//@ model AccountVmContext accelerator bool  // spork flags as of the acknowledged momentum
+//@ model AccountVmContext htlc bool
+//@ model AccountVmContext bridge bool
+//@ func AccountVmContext.IsAcceleratorSporkEnforced(self)
+//@   ensures result == self.accelerator
+//@   modifies nothing
+//@ func AccountVmContext.IsHtlcSporkEnforced(self)
+//@   ensures result == self.htlc
+//@   modifies nothing
+//@ func AccountVmContext.IsBridgeAndLiquiditySporkEnforced(self)
+//@   ensures result == self.bridge
+//@   modifies nothing
